@@ -62,11 +62,11 @@ EXC_NAMES = ['ValueError', 'KeyError', 'TypeError', 'AssertionError', 'RuntimeEr
              'TimeoutError', 'TimeoutError', 'NotImplementedError', 'RecursionError', 'ConnectionResetError', 'FileNotFoundError', 'IndexError',
              'StopAsyncIteration', 'MemoryError', 'ZzUnprintable', 'ZzHttpLikeError', 'ZzRaisedFromRpcError', 'ZzRaisedWhileHandlingRpcError', 'ArithmeticError', 'LookupError', 'PermissionError', 'BufferError', 'EOFError', 'ImportError', 'NameError']
 
-ERR_CODES = [0, 1, -1, 7, 2005, 2006, -32700, -32600, -32601, -32602, -32603, -32000, -32001, -32050, -32099, 2001, 2002, 2**31, -2**31, 10**30]
+ERR_CODES = [0, 1, -1, 7, 2005, 2006, 2101, -32700, -32600, -32601, -32602, -32603, -32000, -32001, -32050, -32099, 2001, 2002, 2**31, -2**31, 10**30]
 
 
 _TYPED = ['ParseError', 'InvalidRequestError', 'MethodNotFoundError', 'InvalidParamsError', 'InternalError',
-          'ServerError', 'Custom2001', 'Custom2002', 'Custom2003', 'Custom2004', 'Custom2005', 'Custom2006Refined', 'SrvRange', 'ZeroCode']
+          'ServerError', 'Custom2001', 'Custom2002', 'Custom2003', 'Custom2004', 'Custom2005', 'Custom2006Refined', 'SrvRange', 'ZeroCode', 'SharedA']
 _MESSAGES = ['', 'm', 'Method not found'] + jg.EDGE_STRINGS
 
 
@@ -130,6 +130,19 @@ class _Gen:
         if bits & 16:
             out['boom2'] = {'kind': 'raise_exc', 'exc': draw(self.s_exc), 'marker': f"MARKER-{draw(self.s_marker)}-zq"}
         return out
+
+
+def exception_corpus(marker: str = 'MARKER-exc-zq') -> list:
+    """every scripted exception type once per way of serving it - sync dispatcher, async dispatcher + coroutines, async dispatcher + plain
+    functions - as a call next to a notification (shared corpus of the dispatcher-level checks)"""
+    t = lambda doc: {'doc': doc, 'ascii': True, 'indent': 0, 'pad': '', 'huge': None, 'mangle': None}  # noqa: E731
+    out = []
+    for kind, plain in (('sync', False), ('async', False), ('async', True)):
+        for exc in dict.fromkeys(EXC_NAMES):
+            beh = {'boom': {'kind': 'raise_exc', 'exc': exc, 'marker': marker}}
+            out.append({'dispatcher': kind, 'plain': plain, 'max_batch_size': None, 'behaviours': beh,
+                        'text': t([{'jsonrpc': '2.0', 'id': 1, 'method': 'boom'}, {'jsonrpc': '2.0', 'method': 'boom'}, {'jsonrpc': '2.0', 'id': 2, 'method': 'noargs'}])})
+    return out
 
 
 _GEN = None
